@@ -509,6 +509,8 @@ def write_meta_data(md, md_file):
             if isinstance(val, float):
                 if val.is_integer():
                     val = int(val)
+                else:
+                    val = np.format_float_positional(val, trim="-")
             fid.write(f"{key}={val}\n")
 
 
